@@ -1,12 +1,15 @@
 (* C11 — The SBOM describes the image that was built.
    Property theorems only; each is closed by [exact] of a lemma proved in
-   Proofs/SbomProofs.v and followed by Print Assumptions.  The identifier
+   Proofs/Sbom*.v and followed by Print Assumptions.  [generate] is Generate as it is in
+   /repo now (an id taken by a package of another name or version is numbered, fix 7c2586e;
+   that the source does so is read by goextract: c11_id_numbering_read_from_source);
+   [generate_u] is Generate before that fix.  The identifier
    alphabet is the regular expression goextract read from spdx.go on this run
    (Generated.Regexes.valid_id_chars_re). *)
 From Coq Require Import Permutation Sorted.
 From Apko Require Import Base.Prelude Base.Regex Base.C01Lib Base.C11Lib Generated.Regexes Generated.C11Prov
   Model.Sbom Model.SbomRepair Model.SbomLic Model.SbomProv Spec.SbomSpec Spec.SbomLicSpec Spec.SbomProvSpec
-  Proofs.SbomProofs Proofs.SbomTwoTargets Proofs.SbomRepairProofs Proofs.SbomLicProofs Proofs.SbomProvProofs.
+  Proofs.SbomProofs Proofs.SbomTwoTargets Proofs.SbomRepairProofs Proofs.SbomNumbered Proofs.SbomLicProofs Proofs.SbomProvProofs.
 Open Scope string_scope. Open Scope list_scope.
 
 (* validIDCharsRe is `class+`: its matches are the maximal runs of bytes of one
@@ -28,7 +31,7 @@ Print Assumptions c11_id_idempotent.
 (* whatever the installed set, the embedded documents and the order in which Go
    ranges over its maps, a document Generate emits has pairwise distinct ids *)
 Theorem c11_ids_unique : forall perm g d, generate perm g = Ok d -> IdsUnique d.
-Proof. exact generate_ids_unique. Qed.
+Proof. exact gen_ids_unique. Qed.
 Print Assumptions c11_ids_unique.
 
 (* the validators run on the observed documents decide the readable statements *)
@@ -55,7 +58,7 @@ Proof. exact closure_never_out_of_fuel. Qed.
 Print Assumptions c11_copy_never_out_of_fuel.
 
 Theorem c11_generate_never_out_of_fuel : forall perm g, generate perm g <> OutOfFuel.
-Proof. exact generate_fuel. Qed.
+Proof. exact gen_fuel. Qed.
 Print Assumptions c11_generate_never_out_of_fuel.
 
 (* every relationship end and the described id is the id of a package of the
@@ -67,12 +70,12 @@ Print Assumptions c11_generate_never_out_of_fuel.
    document, see c11_replace_self_fixed.) *)
 Theorem c11_refs_resolve : forall perm g d, (forall l, Permutation (perm l) l) -> SingleTarget g ->
   generate perm g = Ok d -> RefsResolve d.
-Proof. exact generate_refs_single. Qed.
+Proof. exact gen_refs_single. Qed.
 Print Assumptions c11_refs_resolve.
 
 (* the special case the design names: no embedded SBOMs at all, any [perm] *)
 Theorem c11_refs_resolve_no_embedded : forall perm g d, NoEmbedded g -> generate perm g = Ok d -> RefsResolve d.
-Proof. exact generate_plain_refs. Qed.
+Proof. exact gen_plain_refs. Qed.
 Print Assumptions c11_refs_resolve_no_embedded.
 
 (* the per-apk step behind it *)
@@ -92,14 +95,17 @@ Print Assumptions c11_refs_resolve_step.
    elements (AtMostTwoTargets) and, where it has two, neither of their ids is already
    the id of a package carrying the apk's name that the document can hold at that
    point: an element Generate mints itself or a package of the embedded document of an
-   earlier apk (TargetsFresh; vacuous for documents with at most one target, so this
-   contains c11_refs_resolve: c11_refs_resolve_embedded_covers_single).
+   earlier apk (TargetsFresh; vacuous for documents with at most one target:
+   c11_refs_resolve_embedded_covers_single), and no identifier has to be numbered
+   (NoIdClash: the proof transfers the statement from the code before fix 7c2586e, on
+   which it was established, c11_numbering_idle_without_clash; c11_refs_resolve above needs
+   no such hypothesis).
    The boundary is exact in both directions:
    - two targets, one of them not fresh: c11_two_targets_refuted (finding C11-F4);
    - three fresh targets: c11_replace_loop_refuted (finding C11-F3). *)
 Theorem c11_refs_resolve_embedded : forall perm g d, (forall l, Permutation (perm l) l) ->
-  AtMostTwoTargets g -> TargetsFresh g -> generate perm g = Ok d -> RefsResolve d.
-Proof. exact generate_refs_embedded. Qed.
+  AtMostTwoTargets g -> TargetsFresh g -> NoIdClash g -> generate perm g = Ok d -> RefsResolve d.
+Proof. exact gen_refs_embedded. Qed.
 Print Assumptions c11_refs_resolve_embedded.
 
 Theorem c11_refs_resolve_embedded_covers_single : forall g, SingleTarget g -> AtMostTwoTargets g /\ TargetsFresh g.
@@ -108,8 +114,9 @@ Print Assumptions c11_refs_resolve_embedded_covers_single.
 
 (* the two envelopes are decided by the booleans the correspondence uses to attribute findings *)
 Theorem c11_envelope_validators_decide : forall g,
-  (at_most_two_targets_b g = true <-> AtMostTwoTargets g) /\ (targets_fresh_b g = true <-> TargetsFresh g).
-Proof. intro g. exact (conj (at_most_two_targets_b_iff g) (targets_fresh_b_iff g)). Qed.
+  (at_most_two_targets_b g = true <-> AtMostTwoTargets g) /\ (targets_fresh_b g = true <-> TargetsFresh g) /\
+  (no_id_clash_b g = true <-> NoIdClash g).
+Proof. intro g. exact (conj (at_most_two_targets_b_iff g) (conj (targets_fresh_b_iff g) (no_id_clash_b_iff g))). Qed.
 Print Assumptions c11_envelope_validators_decide.
 
 (* TWO targets without freshness (false): foo-doc's embedded document brought two
@@ -120,15 +127,16 @@ Print Assumptions c11_envelope_validators_decide.
    everything resolves (c11_two_targets_order_dependent).  Finding C11-F4, tag
    dangling-ref/replace-loop-two-targets-reused-id; replayed on the real code by the
    harness corpus, class corpus/two-targets-reused-id. *)
-Theorem c11_two_targets_refuted : exists g d,
-  (forall k e, In (k, FDoc e) (g_fs g) -> RefsResolve e /\ IdsUnique e /\ Forall ValidId (ids e)) /\
-  AtMostTwoTargets g /\ generate (fun l => l) g = Ok d /\ ~ RefsResolve d.
-Proof. exact two_targets_refuted. Qed.
+Theorem c11_two_targets_refuted : exists d,
+  (forall k e, In (k, FDoc e) (g_fs two_target_witness) -> RefsResolve e /\ IdsUnique e /\ Forall ValidId (ids e)) /\
+  AtMostTwoTargets two_target_witness /\ NoIdClash two_target_witness /\
+  generate (fun l => l) two_target_witness = Ok d /\ ~ RefsResolve d.
+Proof. exact two_targets_refuted_n. Qed.
 Print Assumptions c11_two_targets_refuted.
 
 Theorem c11_two_targets_order_dependent : ~ TargetsFresh two_target_witness /\
   exists d, generate (@rev string) two_target_witness = Ok d /\ RefsResolve d.
-Proof. exact (conj two_targets_not_fresh two_targets_other_order). Qed.
+Proof. exact (conj two_targets_not_fresh two_targets_other_order_n). Qed.
 Print Assumptions c11_two_targets_order_dependent.
 
 (* THREE targets (false even when all of them are fresh): a well-formed embedded SBOM
@@ -137,11 +145,11 @@ Print Assumptions c11_two_targets_order_dependent.
    element the second iteration removed (finding C11-F3, tag
    dangling-ref/replace-loop-three-targets; replayed on the real code by the harness
    corpus, class corpus/three-targets). *)
-Theorem c11_replace_loop_refuted : exists g d,
-  (forall k e, In (k, FDoc e) (g_fs g) -> RefsResolve e /\ IdsUnique e /\ Forall ValidId (ids e)) /\
-  Permutation (@rev string (targets "foo" three_sbom)) (targets "foo" three_sbom) /\
-  generate (@rev string) g = Ok d /\ ~ RefsResolve d.
-Proof. exact replace_loop_refuted. Qed.
+Theorem c11_replace_loop_refuted : exists d,
+  (forall k e, In (k, FDoc e) (g_fs three_target_witness) -> RefsResolve e /\ IdsUnique e /\ Forall ValidId (ids e)) /\
+  Permutation (@rev string (targets "foo" three_sbom)) (targets "foo" three_sbom) /\ NoIdClash three_target_witness /\
+  generate (@rev string) three_target_witness = Ok d /\ ~ RefsResolve d.
+Proof. exact replace_loop_refuted_n. Qed.
 Print Assumptions c11_replace_loop_refuted.
 
 Theorem c11_three_targets_fresh : TargetsFresh three_target_witness /\
@@ -153,45 +161,80 @@ Print Assumptions c11_three_targets_fresh.
 (* the defect repaired by 494ce81 (replacePackage(id, id) deleted an element that
    had arrived earlier through another apk's SBOM): its replay now resolves *)
 Theorem c11_replace_self_fixed : exists d, generate (fun l => l) replace_self_witness = Ok d /\ RefsResolve d.
-Proof. exact replace_self_fixed. Qed.
+Proof. exact replace_self_fixed_n. Qed.
 Print Assumptions c11_replace_self_fixed.
 
-(* without embedded SBOMs, and provided no two of the identifiers Generate mints
-   (image, layers, source, one per installed "name-version") coincide, the
-   document's packages are exactly the structural elements followed by one
-   element per installed apk, in order, each with the apk's name, version and
-   checksum, and nothing else *)
-Theorem c11_one_per_apk_partial : forall perm g d,
-  NoEmbedded g -> NoDup (List.map p_id (own_elements g)) -> generate perm g = Ok d ->
-  d_pkgs d = d_pkgs (base_doc g) ++ List.map (apk_package (nonce_of g)) (g_apks g) /\
-  MatchesInstalled (g_apks g) (List.map (apk_package (nonce_of g)) (g_apks g)).
-Proof. exact generate_one_per_apk. Qed.
-Print Assumptions c11_one_per_apk_partial.
+(* ---- EXACTLY ONE ELEMENT PER INSTALLED APK ------------------------------------------------------
+   what goextract read between `p.ID = stringToIdentifier(...)` and the append in Generate: the loop
+   `for base, n := p.ID, 2; idTakenByAnother(doc, &p); n++ { p.ID = fmt.Sprintf("%s-%d", base, n) }`
+   with idTakenByAnother = "a package with this id and another name or version".  Reverting fix
+   7c2586e makes this IdAsIs, [generate] the old code, and c11_one_per_apk unprovable. *)
+Theorem c11_id_numbering_read_from_source : apk_id_policy = IdNumbered 2 /\
+  forall perm g, generate perm g = generate_r true false perm g.
+Proof. exact (conj id_policy_read model_is_numbered). Qed.
+Print Assumptions c11_id_numbering_read_from_source.
 
-(* FULL STATEMENT (false): the same without the NoDup hypothesis, for installed
-   sets with pairwise distinct (name, version).  string_to_identifier is not
-   injective (gtk+ and gtkC43 both give gtkC43), the two apks share an id and
-   the final de-duplication drops the second element (finding C11-F1; replayed
-   by the harness corpus, class corpus/id-collision). *)
-Theorem c11_one_per_apk_refuted : exists g, NoEmbedded g /\
+(* THE FULL STATEMENT (was refuted before 7c2586e, finding C11-F1): without embedded SBOMs, for
+   installed sets with pairwise distinct (name, version) — whatever characters the names hold,
+   colliding identifiers included — the ids are pairwise distinct and the document's packages are the
+   de-duplicated structural elements followed by exactly one element per installed apk, in order,
+   carrying the apk's name, version and checksum; its id is the id stringToIdentifier gives, with a
+   numeric suffix only when that id was taken *)
+Theorem c11_one_per_apk : forall perm g d,
+  NoEmbedded g -> NoDup (List.map (fun a => (a_name a, a_version a)) (g_apks g)) -> generate perm g = Ok d ->
+  IdsUnique d /\
+  exists elems, d_pkgs d = dedup_pkgs [] (d_pkgs (base_doc g)) ++ elems /\
+    Forall2 (fun a p => ElemOf a p /\ exists sfx, p_id p = p_id (apk_package (nonce_of g) a) +++ sfx) (g_apks g) elems /\
+    MatchesInstalled (g_apks g) elems.
+Proof. exact gen_one_per_apk. Qed.
+Print Assumptions c11_one_per_apk.
+
+(* nothing changes where the identifiers Generate mints (image, layers, source, one per installed
+   "name-version") were pairwise distinct before the fix: same document, today's ids (the suite's
+   golden SBOMs stay byte-identical) *)
+Theorem c11_repair_conservative : forall perm g, NoEmbedded g -> NoDup (List.map p_id (own_elements g)) ->
+  generate perm g = generate_u perm g /\
+  forall d, generate perm g = Ok d ->
+    d_pkgs d = d_pkgs (base_doc g) ++ List.map (apk_package (nonce_of g)) (g_apks g) /\
+    MatchesInstalled (g_apks g) (List.map (apk_package (nonce_of g)) (g_apks g)).
+Proof. intros perm g NE ND. exact (conj (gen_conservative perm g NE ND) (fun d => gen_one_per_apk_distinct_ids perm g d NE ND)). Qed.
+Print Assumptions c11_repair_conservative.
+
+(* ... and, with embedded SBOMs, wherever no minted id is held by a package of another name or
+   version when its apk is reached *)
+Theorem c11_numbering_idle_without_clash : forall perm g, NoIdClash g -> generate perm g = generate_u perm g.
+Proof. exact gen_unnumbered. Qed.
+Print Assumptions c11_numbering_idle_without_clash.
+
+(* REGRESSION REPLAY of the defect repaired by 7c2586e (was c11_one_per_apk_refuted, C11-F1):
+   gtk+ and gtkC43 both map to ...-gtkC43-...; the code before the fix emitted no element for the
+   second (for every installed set like this one: c11_one_per_apk_before_fix), the current code
+   emits both, ids distinct and valid.  Replayed on the real code by the harness corpus, class
+   corpus/id-collision, and the e2e world id-collision; the validator tag
+   apk-element-missing/id-collision is no longer a listed finding. *)
+Theorem c11_one_per_apk_collision_fixed :
+  (exists d, generate_u (fun l => l) collide_witness = Ok d /\ List.map p_name (d_pkgs d) = ["sha256:ab"; "sha256:cd"; "gtk+"]) /\
+  (exists d, generate (fun l => l) collide_witness = Ok d /\
+     List.map p_name (d_pkgs d) = ["sha256:ab"; "sha256:cd"; "gtk+"; "gtkC43"] /\ IdsUnique d /\
+     Forall (fun x => valid_id_b x = true) (ids d) /\ MatchesInstalled (g_apks collide_witness) (skipn 2 (d_pkgs d))).
+Proof. exact collision_fixed. Qed.
+Print Assumptions c11_one_per_apk_collision_fixed.
+
+Theorem c11_one_per_apk_before_fix : exists g, NoEmbedded g /\
   NoDup (List.map (fun a => (a_name a, a_version a)) (g_apks g)) /\
-  forall perm, exists d, generate perm g = Ok d /\
+  forall perm, exists d, generate_u perm g = Ok d /\
     exists a, In a (g_apks g) /\ forall p, In p (d_pkgs d) -> ~ ElemOf a p.
 Proof. exact one_per_apk_refuted. Qed.
-Print Assumptions c11_one_per_apk_refuted.
+Print Assumptions c11_one_per_apk_before_fix.
 
-(* ---- THE PROPOSED REPAIRS (fixes/C11-F1.patch, fixes/C11-F3.patch; not in /repo) ----------
-   Model/SbomRepair.v is spdx.go with the patches applied; generate_r f1 f3 switches
-   them on separately; with both off it is today's model. *)
-Theorem c11_repair_off : forall perm g, generate_r false false perm g = generate perm g.
+(* ---- THE REPAIR STILL PROPOSED (fixes/C11-F3.patch; not in /repo) -----------------------------------
+   Model/SbomRepair.v: generate_r f1 f3 switches the two repairs separately; f1 is in /repo
+   (generate = generate_r true false, above), with both off it is the code before 7c2586e. *)
+Theorem c11_repair_off : forall perm g, generate_r false false perm g = generate_u perm g.
 Proof. exact repair_off. Qed.
 Print Assumptions c11_repair_off.
 
-(* with fixes/C11-F1.patch: c11_one_per_apk WITHOUT any hypothesis on the identifiers.
-   No embedded SBOMs, pairwise distinct (name, version): the packages are the
-   de-duplicated structural elements followed by exactly one element per installed
-   apk, in order, with its name, version and checksum; the id is today's id, with a
-   numeric suffix only when it was taken *)
+(* one element per apk also with the F3 patch on top *)
 Theorem c11_one_per_apk_repaired : forall f3 perm g d,
   NoEmbedded g -> NoDup (List.map (fun a => (a_name a, a_version a)) (g_apks g)) ->
   generate_r true f3 perm g = Ok d ->
@@ -200,13 +243,6 @@ Theorem c11_one_per_apk_repaired : forall f3 perm g d,
     MatchesInstalled (g_apks g) elems.
 Proof. exact generate_r_one_per_apk. Qed.
 Print Assumptions c11_one_per_apk_repaired.
-
-(* the repair changes nothing when today's identifiers are pairwise distinct (the
-   suite's golden SBOMs stay byte-identical) *)
-Theorem c11_repair_conservative : forall f3 perm g, NoEmbedded g -> NoDup (List.map p_id (own_elements g)) ->
-  generate_r true f3 perm g = generate perm g.
-Proof. exact repair_conservative. Qed.
-Print Assumptions c11_repair_conservative.
 
 (* with fixes/C11-F3.patch: references resolve for EVERY input: any number of
    described elements, fresh or not, any order (not even a permutation is needed) *)
@@ -238,7 +274,7 @@ Print Assumptions c11_repaired_witnesses.
 Theorem c11_digests : forall perm g d, NoEmbedded g -> generate perm g = Ok d ->
   (g_image g <> "" -> DescribesImage (g_image g) d) /\
   (NoDup (ids (base_doc g)) -> NamesLayers (g_layers g) d).
-Proof. exact generate_plain_digests. Qed.
+Proof. exact gen_plain_digests. Qed.
 Print Assumptions c11_digests.
 
 (* the index document: its references resolve — the relationship source is
@@ -285,13 +321,17 @@ Print Assumptions c11_all_installed_handed_over.
 
 (* the property's first sentence for the file apko writes next to the image: sbom-<arch>.spdx.json
    describes the image by ITS digest (no hypothesis that a digest is known: a built image has one),
-   names every layer of ITS manifest, and has exactly one element per installed paragraph *)
+   names every layer of ITS manifest, and has exactly one element per installed paragraph (the
+   installed database has one paragraph per name: pairwise distinct (name, version) is all it takes
+   since fix 7c2586e, colliding identifiers included) *)
 Theorem c11_built_image_described : forall perm b d, NoEmbedded (expected_input b) -> image_sbom perm b = Ok d ->
   DescribesImage (hash_string (b_digest b)) d /\
   (NoDup (ids (base_doc (expected_input b))) -> NamesLayers (b_layers b) d) /\
-  (NoDup (List.map p_id (own_elements (expected_input b))) ->
-     d_pkgs d = d_pkgs (base_doc (expected_input b)) ++ List.map (apk_package (nonce_of (expected_input b))) (List.map i_apk (b_installed b)) /\
-     MatchesInstalled (List.map i_apk (b_installed b)) (List.map (apk_package (nonce_of (expected_input b))) (List.map i_apk (b_installed b)))).
+  (NoDup (List.map (fun i => (a_name (i_apk i), a_version (i_apk i))) (b_installed b)) ->
+     exists elems, d_pkgs d = dedup_pkgs [] (d_pkgs (base_doc (expected_input b))) ++ elems /\
+       Forall2 (fun a p => ElemOf a p /\ exists sfx, p_id p = p_id (apk_package (nonce_of (expected_input b)) a) +++ sfx)
+               (List.map i_apk (b_installed b)) elems /\
+       MatchesInstalled (List.map i_apk (b_installed b)) elems).
 Proof. exact built_image_described. Qed.
 Print Assumptions c11_built_image_described.
 
@@ -406,19 +446,20 @@ Example c11_example_single_target :
 Proof. intros a [<-|[]] e H. vm_compute in H. inversion H; subst. vm_compute. repeat constructor. Qed.
 
 (* the envelope of c11_refs_resolve_embedded is inhabited by an input with a two-target document *)
-Example c11_example_two_fresh : AtMostTwoTargets two_fresh_example /\ TargetsFresh two_fresh_example /\
+Example c11_example_two_fresh : AtMostTwoTargets two_fresh_example /\ TargetsFresh two_fresh_example /\ NoIdClash two_fresh_example /\
   (exists a e, In a (g_apks two_fresh_example) /\ located two_fresh_example a = Some e /\ List.length (targets (a_name a) e) = 2%nat) /\
   exists d, generate (@rev string) two_fresh_example = Ok d /\ RefsResolve d.
 Proof.
   split; [apply at_most_two_targets_b_iff; vm_compute; reflexivity|].
   split; [apply targets_fresh_b_iff; vm_compute; reflexivity|].
+  split; [apply no_id_clash_b_iff; vm_compute; reflexivity|].
   split; [eexists; eexists; split; [right; left; reflexivity | split; vm_compute; reflexivity]|].
   eexists. split; [vm_compute; reflexivity | apply refs_resolve_b_iff; vm_compute; reflexivity].
 Qed.
 
 (* non-vacuity of the provenance theorems: a build with a noarch and a foreign-architecture
    paragraph; a two-image index handed over in the "wrong" map order *)
-Example c11_example_built : NoEmbedded (expected_input ex_built) /\ NoDup (List.map p_id (own_elements (expected_input ex_built))) /\
+Example c11_example_built : NoEmbedded (expected_input ex_built) /\ NoDup (List.map (fun i => (a_name (i_apk i), a_version (i_apk i))) (b_installed ex_built)) /\
   exists d, image_sbom (fun l => l) ex_built = Ok d /\ List.map p_name (d_pkgs d) = ["sha256:ab"; "sha256:c1"; "sha256:c2"; "musl"; "tzdata"; "cross-stub"].
 Proof. exact ex_built_ok. Qed.
 Example c11_example_built_index : NoDup (List.map fst (bi_images ex_built_index)) /\
